@@ -5,6 +5,7 @@
 #ifndef BPP_GRAPH_TREEGRAPHIMPL_H
 #define BPP_GRAPH_TREEGRAPHIMPL_H
 
+#include <algorithm>
 #include <iostream>
 #include <ostream>
 #include <string>
@@ -588,38 +589,32 @@ Graph::NodeId TreeGraphImpl<GraphImpl>::MRCA(const std::vector<Graph::NodeId>& n
   if (nbnodes == 1)
     return nodes[0];
 
-  // Forward counts
-  auto fathers = std::make_shared<std::map<Graph::NodeId, unsigned int>>();
-  auto sons = std::make_shared<std::map<Graph::NodeId, unsigned int>>();
-
-  for (auto nodeid:nodes)
+  // Lineage of the first node, from the node itself up to the root
+  std::vector<Graph::NodeId> lineage;
+  Graph::NodeId up = nodes[0];
+  lineage.push_back(up);
+  while (hasFather(up))
   {
-    (*sons)[nodeid] = 1;
+    up = getFatherOfNode(up);
+    lineage.push_back(up);
   }
 
-  while (sons->size() > 1)
+  // The MRCA is the highest point where another node joins this lineage
+  size_t mrcaPos = 0;
+  for (size_t i = 1; i < nbnodes; ++i)
   {
-    // From sons to fathers
-    for (auto son:(*sons))
+    Graph::NodeId here = nodes[i];
+    auto found = std::find(lineage.begin(), lineage.end(), here);
+    while (found == lineage.end() && hasFather(here))
     {
-      Graph::NodeId here = (!hasFather(son.first)) ? son.first : getFatherOfNode(son.first);
-
-      if (fathers->find(here) == fathers->end())
-        (*fathers)[here] = son.second;
-      else
-        (*fathers)[here] += son.second;
-
-      if ((*fathers)[here] == nbnodes)
-        return here;
+      here = getFatherOfNode(here);
+      found = std::find(lineage.begin(), lineage.end(), here);
     }
-
-    auto temp = sons;
-    sons = fathers;
-    fathers = temp;
-    fathers->clear();
+    if (found == lineage.end())
+      throw Exception("TreeGraphImpl::MRCA not found");
+    mrcaPos = std::max(mrcaPos, static_cast<size_t>(found - lineage.begin()));
   }
-
-  throw Exception("TreeGraphImpl::MRCA not found");
+  return lineage[mrcaPos];
 }
 }
 #endif // BPP_GRAPH_TREEGRAPHIMPL_H
